@@ -1,3 +1,6 @@
 import InToto.Properties.C05
+#print axioms InToto.C05.reduced_is_agreed
+#print axioms InToto.C05.disagreement_fails
+#print axioms InToto.C05.reference_irrelevant
 #print axioms InToto.C05.single_link
 #print axioms InToto.C05.differing_products_example
